@@ -84,3 +84,32 @@ pub fn run(args: &[i128]) -> Vec<i128> {
     }
     out
 }
+
+// CONCURRENT state machines sharing one causaloid. line: csmconc k   (k * 1000 rounds per thread)
+// Two threads, each with its OWN state machine; both machines hold a state built on the SAME causaloid. Thread A evaluates its state
+// with data on which the causaloid is true (its action must fire every time), thread B with data on which it is false (its action must
+// never fire).  output: actions A missed, actions B fired spuriously, errors of A, errors of B   (all must be 0)
+pub fn run_conc(args: &[i128]) -> Vec<i128> {
+    let rounds = (args[0] as usize).max(1) * 1000;
+    let shared: &'static BaseCausaloid<'static> = Box::leak(Box::new(Causaloid::new(1, f_thr, "shared")));
+    let work = move |data: f64, must_fire: bool| -> (i128, i128) {
+        let state: &'static CausalState<'static, _, _, _, _, _> = Box::leak(Box::new(CausalState::new(1, 1, 10.0, shared)));
+        let act: &'static CausalAction = Box::leak(Box::new(CausalAction::new(act0, "a", 1)));
+        let v: &'static Vec<(&CausalState<'static, _, _, _, _, _>, &CausalAction)> = Box::leak(Box::new(vec![(state, act)]));
+        let csm = CSM::new(&v[..]);
+        let (mut wrong, mut errs) = (0i128, 0i128);
+        for _ in 0..rounds {
+            FIRED.with(|l| l.borrow_mut().clear());
+            if csm.eval_single_state(1, data).is_err() { errs += 1; }
+            let fired = FIRED.with(|l| l.borrow().len());
+            if (fired == 1) != must_fire || fired > 1 { wrong += 1; }
+        }
+        (wrong, errs)
+    };
+    let (ra, rb) = std::thread::scope(|sc| {
+        let ha = sc.spawn(|| work(11.0, true));
+        let hb = sc.spawn(|| work(10.0, false));
+        (ha.join().unwrap(), hb.join().unwrap())
+    });
+    vec![ra.0, rb.0, ra.1, rb.1]
+}
